@@ -6,7 +6,7 @@ from engine.common import VERIF
 
 H = os.path.join(VERIF, "harness", "api")
 QUICK = ["c11_dataset_graph_view", "c11_dataset_graph_triples", "c11_union_graph_view", "c11_partial_union_view", "c11_partial_union_not_view",
-         "c11_gad_any", "c11_gad_const", "c11_gad_two", "c11_gad_not", "c11_gad_kind", "c11_mutate_dataset_graph", "c11_mutate_graph_as_dataset"]
+         "c11_gad_any", "c11_gad_const", "c11_gad_two", "c11_gad_not", "c11_gad_kind", "c11_mutate_dataset_graph", "c11_mutate_graph_as_dataset", "c11_gad_bulk"]
 THOROUGH = QUICK + ["c11_gad_opt"]
 
 
@@ -23,7 +23,8 @@ def spec(tier):
         encoded=["sophia_api::graph::adapter::{UnionGraph, PartialUnionGraph, DatasetGraph (+MutableGraph)}",
                  "sophia_api::dataset::adapter::GraphAsDataset (+MutableDataset)",
                  "Dataset::{graph, graph_mut, union_graph, partial_union_graph}, Graph::{as_dataset, as_dataset_mut}",
-                 "default Dataset::quads_matching / Graph::triples_matching (filter over quads()/triples() with matched_by)"],
+                 "default Dataset::quads_matching / Graph::triples_matching (filter over quads()/triples() with matched_by)",
+                 "insert_all / remove_all of a quad stream through GraphAsDataset (default methods or overrides)"],
         bounds=["store: 3 slots, each empty or a symbolic quad over 3 terms x {default, IRI-named, blank-named} graphs; selector may be a name absent from the store",
                 "one symbolic pattern constant; views stepped to exhaustion; one symbolic insert/remove through a mutable view", "loop unwind 6"],
         outside=["iteration order; views over the real in-memory stores (C01 covers their quads_matching)", "whether a union graph should de-duplicate (checked as one triple per quad)",
